@@ -152,13 +152,28 @@ def gating(prog, chk):
             conds.append((name, x == tt))
             # the `root <svg> was found` flag, recognised by dataflow rather than by name: a bool local all of whose
             # definitions are constants, set to true after write_root_svg() was called
+            roots = [rb for (rb, rt, rc) in pp.call_sites(R.path_endswith("Transformer::write_root_svg"))]
             if o[0] == "place" and x == tt:
-                roots = [rb for (rb, rt, rc) in pp.call_sites(R.path_endswith("Transformer::write_root_svg"))]
                 if _true_only_after(pp, o[1], roots):
+                    conds.append(("<root-found flag>", True))
+            # the same flag as a field-less enum (`root != RootSvg::Absent`): every flag value with which this edge is
+            # taken is assigned only after write_root_svg was called
+            ftst = R.flag_test(pp, a)
+            if ftst is not None:
+                vals = ftst["edge_values"].get(x, set())
+                defs = [blk for v, blk in ftst["flow"] if v in vals]
+                # ... or is assigned on the way to that call (no path from the assignment to here avoids it)
+                if vals and defs and all(any(pp.dominates(rb, blk) for rb in roots) or bb not in pp.reach([blk], avoid=set(roots)) for blk in defs):
                     conds.append(("<root-found flag>", True))
         has_root = ("<root-found flag>", True) in conds
         on = (".add_auto_styles", True) in conds
         not_real = (".real_svg", False) in conds or any(n == ".real_svg" and not v for n, v in conds)
+        known = {".add_auto_styles", ".real_svg", "<root-found flag>"}
+        if on and not has_root and any(nm not in known for nm, _v in conds):
+            # there is a further dominating test the rule cannot read as "a root <svg> was written" (the flag may be an
+            # Option / enum handed back by a helper): no verdict
+            chk.undecided("A13.style-gating", "postprocess:write_auto_styles", pp.where(bb, t.get("line")), f"write_auto_styles is guarded by add_auto_styles and by tests the rule does not understand ({[c for c in conds if c[0] not in known]}); whether they mean `a root <svg> was found` is not decided")
+            continue
         chk.ob(
             has_root and on,
             "A13.style-gating",
